@@ -177,7 +177,11 @@ def gen_scenario(seed, family="mixed"):
     r = rnd.random()
     if family == "graceful":
         r = r * 0.68 if r > 0.1 else 0.9
-    if family == "kill":
+    if family == "killwith":
+        # a forced shutdown that does not wait, then the plain shutdown(wait=True) that leaving a `with executor:` block
+        # issues: the kill request must survive it
+        end = ["shutdown", False, True]
+    elif family == "kill":
         end = ["shutdown", True, True]
     elif r < 0.35:
         end = ["shutdown", True, False]
@@ -193,6 +197,8 @@ def gen_scenario(seed, family="mixed"):
         end = None
     if end:
         u0.append(end)
+        if family == "killwith":
+            u0.append(["shutdown", True, False])
         if end[0] == "shutdown" and rnd.random() < 0.3:
             u0.append(["submit", 0])
         if end[0] == "shutdown" and not end[1] and rnd.random() < 0.5:
